@@ -133,15 +133,11 @@ def run_task(task):
         e.notes['J'] = J
         text = spec.inst_to_text(J, tok=lambda v: e.token(v), sep=sep, colon=colon, trailer=task['trailer'])
         e.notes['text'] = text
-        d = tempfile.mkdtemp(prefix='vf_c10_')
-        try:
-            path = os.path.join(d, 'i.txt')
-            with open(path, 'w') as f:
-                f.write(text)
-            argv = ['-f', path, '-na', str(I.na)] + (['-twopl'] if task['twopl'] else [])
-            s = ns.solver.Solver(argv)
-        finally:
-            shutil.rmtree(d, ignore_errors=True)
+        path = e2.scratch_file()          # same path for every instance of this process
+        with open(path, 'w') as f:
+            f.write(text)
+        argv = ['-f', path, '-na', str(I.na)] + (['-twopl'] if task['twopl'] else [])
+        s = ns.solver.Solver(argv)
         return s.model
 
     E = S.Engine(max_paths=256, timeout=300)
